@@ -384,6 +384,17 @@ class Loop:
     node: ast.AST
     early_exit: bool = False  # the body contains break / return: later iterations may be skipped
     cond: Formula = TRUE  # loop test of a while loop
+    exit_guards: list = field(default_factory=list)  # path conditions of the executed break / return statements of this loop
+
+    def exits_only_when_exhausted(self) -> bool:
+        """Every break / return of the loop happens under 'a work list is empty' (`while True: if not todo: break`)."""
+        if not self.exit_guards:
+            return False
+        for g in self.exit_guards:
+            work = [a for a in atoms_of(g) if a.startswith("bool(<")]
+            if not any(implies(g, f_not(atom(a))) for a in work):
+                return False
+        return True
 
 
 @dataclass
@@ -724,6 +735,7 @@ class SymX:
             if st.alive:
                 self.frame.returns.append((st.pc, v, dict(st.heap)))
                 self.frame.end_states.append(st.copy())
+                self._note_exit(s, st)
             st.alive = False
             return st
         if isinstance(s, ast.Raise):
@@ -732,6 +744,8 @@ class SymX:
             st.alive = False
             return st
         if isinstance(s, (ast.Continue, ast.Break)):
+            if isinstance(s, ast.Break) and st.alive:
+                self._note_exit(s, st)
             st.alive = False
             return st
         if isinstance(s, ast.If):
@@ -792,6 +806,17 @@ class SymX:
             return out
         self.notes.append(f"statement {type(s).__name__} ignored")
         return st
+
+    def _note_exit(self, s: ast.stmt, st: State) -> None:
+        """Records the path condition of a break / return at the loops it leaves (the loops it is written in)."""
+        from core.loader import ancestors
+
+        enclosing = [a for a in ancestors(s) if isinstance(a, (ast.For, ast.AsyncFor, ast.While))]
+        if isinstance(s, ast.Break):
+            enclosing = enclosing[:1]
+        for l in self.loops:
+            if any(l.node is a for a in enclosing):
+                l.exit_guards.append(f_and(st.pc))
 
     def _if(self, s: ast.If, st: State) -> State:
         c = self.truth(self.eval(s.test, st))
